@@ -370,12 +370,14 @@ events_network_select(const struct timeval * tv,
 
 	/*
 	 * Convert timeout to an integer number of ms.  We round up in order
-	 * to avoid creating busy loops when 0 < ${tv} < 1 ms.
+	 * to avoid creating busy loops when 0 < ${tv} < 1 ms.  Times which
+	 * don't fit into an int are clamped to a whole number of seconds no
+	 * larger than ${tv}, so that we never wait longer than requested.
 	 */
 	if (tv == NULL)
 		timeout = -1;
 	else if (tv->tv_sec >= INT_MAX / 1000)
-		timeout = INT_MAX;
+		timeout = (INT_MAX / 1000) * 1000;
 	else
 		timeout = (int)(tv->tv_sec * 1000 + (tv->tv_usec + 999) / 1000);
 
